@@ -50,6 +50,7 @@ type Val struct {
 	B     Boolv
 	Class string // "" unknown
 	Int   *int64
+	Not   string // integers the value is known to differ from (";a;b;"), learnt from != outcomes
 	Sym   string // provenance label set by rules (e.g. "upstream#1")
 }
 
@@ -322,6 +323,9 @@ func (s *State) Eval(v ssa.Value) Val {
 		case constant.Int:
 			if i, ok := constant.Int64Val(x.Value); ok {
 				return intVal(i)
+			}
+			if u, ok := constant.Uint64Val(x.Value); ok {
+				return intVal(int64(u)) // bit pattern: exact for (in)equality; ordered comparisons skip negatives of unsigned type
 			}
 		}
 		return Val{N: NNon}
@@ -924,13 +928,17 @@ func (st *State) decide(cond ssa.Value) Boolv {
 			if x.Int != nil && y.Int != nil {
 				return b2((*x.Int == *y.Int) == (c.Op == token.EQL))
 			}
+			if x.Int != nil && y.Int == nil && strings.Contains(y.Not, fmt.Sprintf(";%d;", *x.Int)) ||
+				y.Int != nil && x.Int == nil && strings.Contains(x.Not, fmt.Sprintf(";%d;", *y.Int)) {
+				return b2(c.Op == token.NEQ)
+			}
 			if x.B != BUnk && y.B != BUnk {
 				return b2((x.B == y.B) == (c.Op == token.EQL))
 			}
 		}
 		if c.Op == token.LSS || c.Op == token.LEQ || c.Op == token.GTR || c.Op == token.GEQ {
 			x, y := st.Eval(c.X), st.Eval(c.Y)
-			if x.Int != nil && y.Int != nil {
+			if x.Int != nil && y.Int != nil && !(isUnsigned(c.X.Type()) && (*x.Int < 0 || *y.Int < 0)) {
 				switch c.Op {
 				case token.LSS:
 					return b2(*x.Int < *y.Int)
@@ -1035,6 +1043,21 @@ func (st *State) assume(cond ssa.Value, outcome bool) {
 					x.B = b2(y.B != BTrue)
 					st.refine(c.X, x)
 				}
+				// "typ != K": remembered with the value (and its cell), so that a later comparison of
+				// the same variable with K - in another function, through another load - is decided
+				if y.Int != nil && x.Int == nil && isIntegerType(c.X.Type()) {
+					if x.Not == "" {
+						x.Not = ";"
+					}
+					x.Not += fmt.Sprintf("%d;", *y.Int)
+					st.refine(c.X, x)
+				} else if x.Int != nil && y.Int == nil && isIntegerType(c.Y.Type()) {
+					if y.Not == "" {
+						y.Not = ";"
+					}
+					y.Not += fmt.Sprintf("%d;", *x.Int)
+					st.refine(c.Y, y)
+				}
 			}
 		}
 	case *ssa.UnOp:
@@ -1061,6 +1084,12 @@ func (st *State) assume(cond ssa.Value, outcome bool) {
 func (st *State) refine(v ssa.Value, val Val) {
 	v = st.Resolve(v)
 	st.V[v] = val
+	// what is learnt about a parameter of an inlined callee holds for the argument it was bound to
+	if p, isParam := v.(*ssa.Parameter); isParam {
+		if a, ok := st.Args[p]; ok && a != v {
+			st.refine(a, val)
+		}
+	}
 	if u, ok := v.(*ssa.UnOp); ok && u.Op == token.MUL {
 		k := st.cell(u.X)
 		if !st.Volatile[k] {
@@ -1207,4 +1236,14 @@ func makeClosureOf(v ssa.Value, d int) *ssa.MakeClosure {
 		}
 	}
 	return nil
+}
+
+func isUnsigned(t types.Type) bool {
+	b, ok := t.Underlying().(*types.Basic)
+	return ok && b.Info()&types.IsUnsigned != 0
+}
+
+func isIntegerType(t types.Type) bool {
+	b, ok := t.Underlying().(*types.Basic)
+	return ok && b.Info()&types.IsInteger != 0
 }
